@@ -1,0 +1,23 @@
+//go:build verif
+
+// Copyright 2025 NVIDIA CORPORATION
+// SPDX-License-Identifier: Apache-2.0
+
+package controllers
+
+import (
+	"k8s.io/client-go/tools/record"
+	"sigs.k8s.io/controller-runtime/pkg/client"
+
+	"github.com/NVIDIA/KAI-scheduler/pkg/podgrouper/podgroup"
+	"github.com/NVIDIA/KAI-scheduler/pkg/podgrouper/podgrouper"
+	pluginshub "github.com/NVIDIA/KAI-scheduler/pkg/podgrouper/podgrouper/hub"
+)
+
+// NewVerifPodReconciler wires a PodReconciler exactly as SetupWithManager does, minus the manager
+// (which needs a live REST config). Verification-only constructor; adds no behaviour.
+func NewVerifPodReconciler(c, uncached client.Client, configs Configs, hub pluginshub.PluginsHub, rec record.EventRecorder) *PodReconciler {
+	return &PodReconciler{Client: c, Scheme: c.Scheme(), configs: configs, eventRecorder: rec,
+		podGrouper:      podgrouper.NewPodgrouper(c, uncached, hub),
+		PodGroupHandler: podgroup.NewHandler(c, configs.NodePoolLabelKey, configs.SchedulingQueueLabelKey)}
+}
